@@ -590,7 +590,7 @@ def run_shard(ctx, spec):
                         ctx.finding(f"C01:keysub:{mplan['ser']}:{algs[i][:2]}:{r[0]}", r[1], {"case": case, "fault": fault, "entry": e, "token": token, "token2": token2})
                     elif r == "ok":
                         raise HarnessError(f"reference accepts a token under a substituted key: {case!r}")
-    drive(ctx, "faults", case_strategy, body, 32 if ctx.tier == "quick" else 600)
+    drive(ctx, "faults", case_strategy, body, 24 if ctx.tier == "quick" else 600)
 
 
 def replay(rec) -> dict:
